@@ -52,13 +52,12 @@ type cdata struct {
 
 // Ref is the part of the reference ledger that persists across blocks.
 type Ref struct {
-	W        *World
-	NonSign  map[string]uint64 // address -> missed certificates in the running window (own chain)
-	CData    map[uint64]*cdata
-	CDOrder  []uint64
-	DSIndex  map[string]bool // "addr|height" already punished
-	Prev     *PrevCert
-	LastNote string
+	W       *World
+	NonSign map[string]uint64 // address -> missed certificates in the running window (own chain)
+	CData   map[uint64]*cdata
+	CDOrder []uint64
+	DSIndex map[string]bool // "addr|height" already punished
+	Prev    *PrevCert
 }
 
 func NewRef(w *World) *Ref {
@@ -134,16 +133,16 @@ type TxMeta struct {
 	Name    string
 	Raw     []byte
 	Fee     uint64
-	PoolAdd map[uint64]uint64    // tokens the transaction moves INTO reward pools (subsidy)
-	DaoMint uint64               // approved DAO transfer with mint=true
-	Faucet  uint64               // tokens the faucet must create for this send (0 unless the world has a faucet)
-	Model   func(m *BlockModel)  // effect on validator records, applied if the transaction was included
+	PoolAdd map[uint64]uint64   // tokens the transaction moves INTO reward pools (subsidy)
+	DaoMint uint64              // approved DAO transfer with mint=true
+	Faucet  uint64              // tokens the faucet must create for this send (0 unless the world has a faucet)
+	Model   func(m *BlockModel) // effect on validator records, applied if the transaction was included
 }
 
 // Expect is the ledger's prediction for one block.
 type Expect struct {
 	Mint, DaoMint, Faucet, SlashBurn, RewardBurn uint64
-	Notes                                      []string
+	Notes                                        []string
 }
 
 func (e *Expect) Delta() *big.Int {
